@@ -26,7 +26,7 @@ RULE = (
 )
 EXHAUSTIVE_PART = "all placements of <=3 (quick) / <=5 (thorough; <=4 for C12) events on the 5-beat grid"
 ASSUMPTIONS = ["exact rational timeline is the specification", "float error of the engine stays below 1e-9 s for times below ~3e4 s"]
-MONITORS = ["time_at", "bpm_at", "monotone", "offset_shift", "redundant_bpm", "order_independence"]
+MONITORS = ["time_at", "bpm_at", "monotone", "offset_shift", "redundant_bpm", "order_independence", "timing_data_reused"]
 REQUIRED = ["stop_on_delay", "nested_warps", "overlapping_warps", "touching_warps", "warp_at_beat_0",
             "stop_at_warp_start", "stop_inside_warp", "delay_inside_warp", "pause_at_warp_end",
             "bpm_change_inside_warp", "pause_at_beat_0", "negative_beat_probe", "corpus", "three_warps_one_union"]
@@ -144,6 +144,9 @@ def check(ctx, case):
         ctx.violation("time_at:default-tag-is-not-STOP", {"timing": timing})
     ctx.notes["max_abs_error_s"] = max(ctx.notes.get("max_abs_error_s", 0.0), float(max_err))
 
+    if case["kind"] != "grid" or ctx.evaluations % 5 == 0:
+        reuse_timing_data(ctx, timing, rng, bb, beats, tags)
+
     # bpm_at, asked backwards then forwards
     for b in list(reversed(beats)) + beats:
         ctx.mon("bpm_at")
@@ -183,6 +186,50 @@ def check(ctx, case):
                                   {"inserted_tick": k, "bpm": cur, "beat": str(b), "tag": t.name, "before": a, "after": c,
                                    "timing": timing})
                     break
+
+
+def reuse_timing_data(ctx, timing, rng, bb, beats, tags):
+    """One TimingData object: engine, in-place edit (a stop appended after every event / offset changed), second engine."""
+    from simfile.ssc import SSCSimfile
+    from simfile.timing import Beat, BeatValue, TimingData
+    from simfile.timing.engine import TimingEngine
+
+    td = TimingData(SSCSimfile(string=G.to_text(timing)))
+    TimingEngine(td).time_at(Beat(1))  # the first engine has been built and used
+    last = max([k for key in ("bpms", "stops", "delays") for k, _ in timing[key]] + [k + l for k, l in timing["warps"]])
+    edited = dict(timing)
+    how = rng.choice(["stop", "offset", "bpm"])
+    if how == "stop":
+        k = last + 48
+        td.stops.append(BeatValue(Beat(k, 48), Decimal("0.75")))
+        edited["stops"] = timing["stops"] + [[k, "0.75"]]
+    elif how == "bpm":
+        k = last + 24
+        td.bpms.append(BeatValue(Beat(k, 48), Decimal("333")))
+        edited["bpms"] = timing["bpms"] + [[k, "333"]]
+    else:
+        td.offset = td.offset + Decimal("1.5")
+        edited["offset"] = str(Decimal(timing["offset"]) + Decimal("1.5"))
+    tl2 = G.build_timeline(edited)
+    e2 = TimingEngine(td)
+    probe = sorted(set(beats) | {Fraction(last + 96, 48), Fraction(last + 49, 48)})
+    for b in probe:
+        for t in (tags[0], tags[5], tags[6]):
+            ctx.mon("timing_data_reused")
+            got = float(e2.time_at(Beat(b.numerator, b.denominator), t))
+            if abs(Fraction(got) - tl2.time(b, int(t))) > TOL or Fraction(e2.bpm_at(Beat(b.numerator, b.denominator))) != tl2.bpm(b):
+                ctx.violation(f"reuse:engine-built-after-in-place-edit-of-timing-data-is-stale:{how}",
+                              {"edit": how, "beat": str(b), "tag": t.name, "got": got, "want": float(tl2.time(b, int(t))), "timing": timing})
+                return
+    # offsets -1 and -2, one engine right after the other: every time differs by exactly one second
+    ea = G.build_engine(dict(timing, offset="-1"))
+    eb = G.build_engine(dict(timing, offset="-2"))
+    for b in beats[:: max(1, len(beats) // 12)]:
+        ctx.mon("timing_data_reused")
+        x, y = float(ea.time_at(bb[b])), float(eb.time_at(bb[b]))
+        if abs((y - x) - 1.0) > 1e-9:
+            ctx.violation("offset-shift:offsets-minus-1-and-minus-2-give-the-same-times", {"beat": str(b), "offset -1": x, "offset -2": y, "timing": timing})
+            return
 
 
 def default_differs(eng, bb, beats, tl):
